@@ -608,7 +608,7 @@ func (sps *H265RawSPS) Decode(data []byte) (err error) {
 
 	sps.Sps_sub_layer_ordering_info_present_flag = r.ReadBit()
 	loopStart := uint8(0)
-	if sps.Sps_sub_layer_ordering_info_present_flag == 1 {
+	if sps.Sps_sub_layer_ordering_info_present_flag == 0 {
 		loopStart = sps.Sps_max_sub_layers_minus1
 	}
 	for i := loopStart; i <= sps.Sps_max_sub_layers_minus1; i++ {
